@@ -47,10 +47,14 @@ def main():
     finally:
         sh('git -C /repo worktree remove --force %s' % wt)
         shutil.rmtree(wt, ignore_errors=True)
-    # our checks against it
-    st, out = sh('/verif/tools/try_patch.sh %s/patch.diff %s' % (dst, ' '.join(checks)), timeout=3400)
-    meta['ran']['our_checks'] = out[-1500:]
-    meta['detected_by'] = [c for c in checks if ('VIOLATION property=%s' % c) in out]
+    # our checks against it (needs /repo exclusively; CONFIRM_NO_CHECKS=1 skips it: run tools/detect_seeded.py later)
+    if os.environ.get('CONFIRM_NO_CHECKS'):
+        meta['detected_by'] = None
+        meta['checks_to_run'] = checks
+    else:
+        st, out = sh('/verif/tools/try_patch.sh %s/patch.diff %s' % (dst, ' '.join(checks)), timeout=3400)
+        meta['ran']['our_checks'] = out[-1500:]
+        meta['detected_by'] = [c for c in checks if ('VIOLATION property=%s' % c) in out]
     ok = (meta['ran'].get('patch_applies') and meta['ran']['demo_unchanged']['exit'] == 0 and
           meta['ran']['demo_with_change']['exit'] != 0 and meta['ran']['suite_with_change']['exit'] == 0)
     meta['confirmed'] = bool(ok)
